@@ -112,6 +112,7 @@ pub fn new_world(spec: &RunSpec, plan: PlanInfo, nmut: usize) -> World {
         satb_new: BTreeSet::new(),
         immortal_dead: BTreeSet::new(),
         oom_events: Vec::new(),
+        cleared_ever: BTreeSet::new(),
         hist: Default::default(),
         blocked_for_gc: [false; MAX_MUT],
         gc_requests: BTreeMap::new(),
